@@ -47,6 +47,7 @@ def run(check: Check, repo: Repo, tier: str) -> None:
     from rules import language_rules as L
     L.result_filter(check, repo)
     L.parallel_returns(check, repo)
+    L.optional_truthiness(check, repo, ['validation.validate'])
     rule_mods = [m for m in vmods if m.name.startswith("graphql.validation.rules.") and ".custom" not in m.name]
     V.no_read(check, repo, model, rule_mods + ctx)
     # NO-WRITE
